@@ -12,10 +12,13 @@ import (
 	"sort"
 	"strconv"
 	"strings"
+	"sync"
 	"sync/atomic"
 	"testing"
 	"time"
 
+	"github.com/gobuffalo/pop/v6"
+	"github.com/gobuffalo/pop/v6/logging"
 	"github.com/gofrs/uuid"
 	"github.com/ory/x/networkx"
 	"github.com/sirupsen/logrus"
@@ -70,7 +73,53 @@ type runState struct {
 	kind       int
 	pageSize   int
 	budget     int64 // storage calls after which every call fails (0: callBudget)
+	// statement-level faults (below the Manager/Traverser interface): the SQL statements of the check are
+	// counted; the stmtAt-th one is cancelled right before it is sent (the storage call it belongs to -
+	// 1-based, recorded in stmtCall - sees a cancelled query). nil stmts: off.
+	stmts    *int64
+	stmtAt   int64
+	stmtCall *int64
 }
+
+// stmtCallInfo travels in the context of ONE storage call (a child context that can be cancelled alone).
+type stmtCallInfo struct {
+	st     *runState
+	call   int64
+	cancel context.CancelFunc
+}
+
+type stmtCallKey struct{}
+
+// stmtWrap derives the context of one storage call when statement-level faults are on.
+func (d *faultDeps) stmtWrap(ctx context.Context) (context.Context, func()) {
+	st, ok := ctx.Value(runStateKey{}).(*runState)
+	if !ok || st.stmts == nil {
+		return ctx, func() {}
+	}
+	cctx, cancel := context.WithCancel(ctx)
+	return context.WithValue(cctx, stmtCallKey{}, &stmtCallInfo{st: st, call: atomic.LoadInt64(st.calls), cancel: cancel}), cancel
+}
+
+// stmtHook is pop's statement logger: called right before a statement is sent to the database.
+func stmtHook(lvl logging.Level, anon interface{}, _ string, _ ...interface{}) {
+	if lvl != logging.SQL {
+		return
+	}
+	c, ok := anon.(*pop.Connection)
+	if !ok {
+		return
+	}
+	ci, ok := c.Context().Value(stmtCallKey{}).(*stmtCallInfo)
+	if !ok {
+		return
+	}
+	if n := atomic.AddInt64(ci.st.stmts, 1); ci.st.stmtAt > 0 && n == ci.st.stmtAt {
+		atomic.StoreInt64(ci.st.stmtCall, ci.call)
+		ci.cancel()
+	}
+}
+
+var stmtHookOnce sync.Once
 
 type runStateKey struct{}
 
@@ -120,6 +169,8 @@ func (m *faultManager) GetRelationTuples(ctx context.Context, q *relationtuple.R
 	if ps := m.d.state(ctx).pageSize; ps > 0 && ps != 100 {
 		o = append(o, x.WithSize(ps))
 	}
+	ctx, done := m.d.stmtWrap(ctx)
+	defer done()
 	return m.Manager.GetRelationTuples(ctx, q, o...)
 }
 
@@ -127,6 +178,8 @@ func (m *faultManager) ExistsRelationTuples(ctx context.Context, q *relationtupl
 	if err := m.d.hit(ctx); err != nil {
 		return false, err
 	}
+	ctx, done := m.d.stmtWrap(ctx)
+	defer done()
 	return m.Manager.ExistsRelationTuples(ctx, q)
 }
 
@@ -139,6 +192,8 @@ func (t *faultTraverser) TraverseSubjectSetExpansion(ctx context.Context, tuple 
 	if err := t.d.hit(ctx); err != nil {
 		return nil, err
 	}
+	ctx, done := t.d.stmtWrap(ctx)
+	defer done()
 	return t.Traverser.TraverseSubjectSetExpansion(ctx, tuple)
 }
 
@@ -146,6 +201,8 @@ func (t *faultTraverser) TraverseSubjectSetRewrite(ctx context.Context, tuple *r
 	if err := t.d.hit(ctx); err != nil {
 		return nil, err
 	}
+	ctx, done := t.d.stmtWrap(ctx)
+	defer done()
 	return t.Traverser.TraverseSubjectSetRewrite(ctx, tuple, css)
 }
 
@@ -176,6 +233,11 @@ type engEnv struct {
 	lastDepth, lastWidth int
 	other                *ksql.Persister // one persister serving two networks selected by the context (C06)
 	eng                  *check.Engine   // the engine shared by all checks of this environment
+	// statement-level fault mode of runCheck (see runState): on/off, the statement to cancel (0: only count),
+	// and what the last run observed: statements sent, storage call (1-based) the cancelled one belonged to
+	stmtMode                bool
+	stmtAt                  int64
+	lastStmts, lastStmtCall int64
 	hung                 bool            // a check did not return: the stream stops after the current case
 	budget               int64           // storage-call budget of the next runs (0: callBudget)
 	noplcase             int
@@ -730,8 +792,14 @@ func (e *engEnv) runCheck(c *EngCase, det bool) (res string, calls int64) {
 		}
 		e.eng = check.NewEngine(deps)
 	}
-	ctx := context.WithValue(e.ctx, runStateKey{}, &runState{calls: &n, failAt: int64(c.FaultAt), persistent: c.FaultPersis,
-		kind: c.FaultKind, pageSize: c.PageSize, budget: e.budget})
+	rs := &runState{calls: &n, failAt: int64(c.FaultAt), persistent: c.FaultPersis,
+		kind: c.FaultKind, pageSize: c.PageSize, budget: e.budget}
+	if e.stmtMode {
+		stmtHookOnce.Do(func() { pop.SetTxLogger(stmtHook) })
+		e.lastStmts, e.lastStmtCall = 0, 0
+		rs.stmts, rs.stmtAt, rs.stmtCall = &e.lastStmts, e.stmtAt, &e.lastStmtCall
+	}
+	ctx := context.WithValue(e.ctx, runStateKey{}, rs)
 	defer func() {
 		if r := recover(); r != nil {
 			res = fmt.Sprintf("panic:%v", r)
